@@ -560,6 +560,9 @@ func (sc *srvScen) checkTable(t dht.VerifTable) {
 		}
 		if n.Bucket != commonPrefixLen(t.Root, n.Id) {
 			sc.viol("C05", fmt.Sprintf("entry sits in bucket %d, shared prefix is %d", n.Bucket, commonPrefixLen(t.Root, n.Id)))
+		} else if own := sc.s.ID(); n.Id != own && n.Bucket != commonPrefixLen(own, n.Id) {
+			// (the ID the node presents in its messages, not the table's private idea of it)
+			sc.viol("C05", fmt.Sprintf("entry sits in bucket %d, but shares a %d-bit prefix with the node's own ID %x", n.Bucket, commonPrefixLen(own, n.Id), own[:6]))
 		}
 		k := hx(n.Id[:]) + "@" + n.Addr
 		if seen[k] {
